@@ -153,6 +153,24 @@ pub fn run(opts: &Opts) -> i32 {
     out.nontrivial(hash_str(&format!("{:?}", l.mappings)));
     check(&l, "random_basic_layouts", &env, &mut out);
   }
+  // (5) very large layouts: thousands of mappings, a saved file of several megabytes
+  let n_big = opts.num("big", if thorough { 6 } else { 1 });
+  for _ in 0..n_big {
+    let n = rng.range(4000, 12000);
+    let mut ms = Vec::with_capacity(n);
+    for _ in 0..n {
+      let fl = rng.range(1, 4);
+      let from = rng.sample(&keys, fl);
+      let tl = rng.below(4);
+      let to = rng.sample(&keys, tl);
+      ms.push(Mapping { absorbing: from[..from.len() - 1].iter().cloned().filter(|_| rng.chance(1, 4)).collect(), from, to,
+        repeat: if rng.chance(1, 5) { Repeat::Special { keys: { let k = rng.below(3); rng.sample(&keys, k) }, delay_ms: 180, interval_ms: 30 } } else { Repeat::Normal } });
+    }
+    let l = Layout { mappings: ms };
+    out.nontrivial(hash_str(&format!("{:?}", &l.mappings[..50])));
+    out.add("mappings_in_big_layouts", n as u64);
+    check(&l, "big_layouts", &env, &mut out);
+  }
   if !env.namespaced { let _ = std::fs::remove_file(&env.fallback_file); }
   out.write(opts);
   if out.n_violations() > 0 { 1 } else { 0 }
